@@ -516,7 +516,7 @@ func classify(e interface{}) string {
 	}
 }
 
-// run f under a 2 s deadline; "" → timeout
+// run f under a 2 s deadline (plus one grace period against starvation); "timeout" = it does not terminate
 func deadline(f func() string) string {
 	ch := make(chan string, 1)
 	go func() {
@@ -531,6 +531,13 @@ func deadline(f func() string) string {
 		}()
 		ch <- f()
 	}()
+	select {
+	case r := <-ch:
+		return r
+	case <-time.After(2 * time.Second):
+	}
+	// not finished within the deadline: on a loaded machine a goroutine can simply have been starved, so it gets one
+	// grace period before the call is declared non-terminating (a real hang is still there after it)
 	select {
 	case r := <-ch:
 		return r
